@@ -338,6 +338,7 @@ class RelativisticPVector(TMatrix):
                     pole_id=pole_id,
                     angular_momentum=angular_momentum,
                     meson_radius=meson_radius,
+                    phsp_factor=phsp_factor,
                 )
                 for i in range(n_channels)
                 for j in range(n_channels)
